@@ -30,6 +30,32 @@ def strategy(tier):
     return substgen.subst_case_with_probes(dict_bias=4)
 
 
+def exhaustive(tier):
+    """small families no random draw is likely to hit: equal-valued numbers of different types side by side under
+    targets that take both, and whole numbers no float can hold at float positions"""
+    num = {"t": "any", "alts": [{"t": "int"}, {"t": "float"}]}
+    numb = {"t": "any", "alts": [{"t": "bool"}, {"t": "int"}, {"t": "float"}, {"t": "none"}]}
+    targets = [{"t": "list", "form": "typed", "elem": num}, {"t": "list", "form": "typed", "elem": numb},
+               {"t": "list", "form": "typed", "elem": {"t": "any"}}, {"t": "list", "form": "untyped"},
+               {"t": "list", "form": "head", "elems": [num]}, {"t": "list", "form": "contains", "elems": [num, num]},
+               {"t": "dict"}, {"t": "dict", "entries": [{"key": "a", "opt": False, "spec": num}, {"key": "b", "opt": False, "spec": numb}],
+                               "relaxed": True}]
+    lists = [[1, 1.0], [1.0, 1], [0, 0.0, False], [True, 1, 1.0], [2.0, 2, 2.0], [0.0, 0], [-1, -1.0, 7], [1, 2, 1.0, 2.0, 1],
+             [2 ** 53, float(2 ** 53)], [[1], [1.0]]]
+    for t in targets:
+        for vals in lists:
+            v = vals if t["t"] == "list" else dict(zip("abcde", vals))
+            yield {"spec": t, "value": v, "full": None, "kind": "equal-valued-twins", "rng": [0.5, 0.0], "share": False,
+                   "probes": [v, list(reversed(vals)) if t["t"] == "list" else dict(zip("abcde", reversed(vals)))]}
+    fl = [{"t": "float"}, {"t": "float", "min": 0.0, "order": ["min"]}, {"t": "any", "alts": [{"t": "float"}, {"t": "none"}]}]
+    for f in fl:
+        for n in (0, 10, -3, 2 ** 53 + 1, 10 ** 22 + 1, -(2 ** 53) - 1, 2 ** 64 + 1, 10 ** 400):
+            for spec, v in ((f, n), ({"t": "list", "form": "typed", "elem": f}, [n, 1.5]),
+                            ({"t": "dict", "entries": [{"key": "r", "opt": False, "spec": f}], "relaxed": False}, {"r": n})):
+                yield {"spec": spec, "value": v, "full": None, "kind": "whole-number-at-float-position", "rng": [0.5], "share": False,
+                       "probes": [v]}
+
+
 def _any_refuses_its_accepting_alternative(Sn, v):
     """Is there, along v, an any(...) node such that every alternative that *validates* the sub-value
     refuses to take it with 'Unknown key' (a relaxed dict alternative given an undeclared key)?"""
